@@ -160,7 +160,10 @@ TPersist ==
               hoN == {R.steps[k].cs[1].c.num : k \in StepsOf("holder_commitment")}
               pre == {R.steps[k].hash : k \in StepsOf("payment_preimage")}
               rnT == {R.steps[k].ftx : k \in StepsOf("renegotiated_funding")}
-          IN /\ Persist(e, R.uid, R.status = "inprogress", cpN, hoN, pre, rnT)
+              lkT == {R.steps[k].ftx : k \in StepsOf("renegotiated_funding_locked")}
+          IN /\ IF lkT # {} /\ ~Up(e) /\ (CHOOSE t \in lkT : TRUE) # fund[e].tx
+                THEN PersistLockOffline(e, R.uid, R.status = "inprogress", CHOOSE t \in lkT : TRUE)
+                ELSE Persist(e, R.uid, R.status = "inprogress", cpN, hoN, pre, rnT)
              \* every holder commitment the node accepted -- one per funding scope -- is one its peer built
              \* (same transaction id) and the one its own history prescribes for that scope
              /\ \A k \in StepsOf("holder_commitment") :
